@@ -591,3 +591,6 @@ def _variants():
         V("helper-270-minus-1", replace_expr(SY, "rotate_270_clockwise_set", "perm.rotate(3)", "perm.rotate(-1)"), "silent"),
         V("perm-allsyms-range-4", replace_expr(PE, "Perm.all_syms", "range(3)", "range(4)"), "silent", note="one more turn revisits the start: still the whole orbit"),
     ]
+
+EXPLANATION = EXPLANATION + (" Added while building: (A6) the set-level helpers of permutils/symmetry.py (all_symmetry_sets, lex_min, *_set) consume a possibly one-shot iterable at most "
+                             "once on every path (one-shot discipline, sa/oneshot.py); (A2) any pure integer normalisation of the rotation count is folded for counts -13..13 and must equal count % 4.")
